@@ -146,7 +146,7 @@ def ranalysis(rng, depth, names):
     elif k == "tran":
         a.update(tstop=rnum(rng), tstep=rng.choice([None, rnum(rng)]))
     elif k == "noise":
-        a.update(output=rng.choice([["sig", "out"], ["str", "xtop.out"], ["pair", "out", "inp"]]), source=rng.choice([["inst", "vin"], ["str", "vsrc"]]),
+        a.update(output=rng.choice([["sig", "out"], ["str", "xtop.out"], ["pair", "out", "inp"], ["strpair", "out", "inp"], ["mixedpair", "out", "inp"], ["diff", "dd"]]), source=rng.choice([["inst", "vin"], ["str", "vsrc"]]),
                  sweep={"k": "log", "start": rnum(rng), "stop": rnum(rng), "npts": rng.randint(1, 40)})
     elif k == "custom":
         a.update(cmd=rng.choice([".pss fund=1e9", "my analysis cmd", "op2 x=y"]))
@@ -213,6 +213,10 @@ def make_tb(kind="ok"):
     tb.vin = h.Instance(of=h.Vdc(dc=1))(p=tb.inp, n=tb.VSS if kind != "no-port" else tb.out)
     tb.r = h.Instance(of=h.R(r=1000))(p=tb.inp, n=tb.out)
     tb.c = h.Instance(of=h.C(c="1e-12"))(p=tb.out, n=tb.VSS if kind != "no-port" else tb.inp)
+    if kind == "ok":
+        # an internal differential pair of nets (a Diff bundle instance), for analyses that name a differential output
+        tb.dd = h.Diff()
+        tb.rd = h.Instance(of=h.R(r=7))(p=tb.dd.p, n=tb.dd.n)
     if kind == "two-ports":
         tb.extra = h.Port()
         tb.r2 = h.Instance(of=h.R(r=5))(p=tb.extra, n=tb.out)
@@ -268,7 +272,14 @@ def mk_attr(a, tb, params, cache):
         return hs.Tran(tstop=realise_num(a["tstop"]), tstep=None if a["tstep"] is None else realise_num(a["tstep"]), name=a["name"])
     if k == "noise":
         o = a["output"]
-        out = getattr(tb, o[1]) if o[0] == "sig" else (o[1] if o[0] == "str" else (getattr(tb, o[1]), getattr(tb, o[2])))
+        if o[0] == "strpair":
+            out = (o[1], o[2])
+        elif o[0] == "mixedpair":
+            out = (getattr(tb, o[1]), o[2])
+        elif o[0] == "diff":
+            out = tb.bundles[o[1]] if o[1] in tb.bundles else tb.get(o[1])
+        else:
+            out = getattr(tb, o[1]) if o[0] == "sig" else (o[1] if o[0] == "str" else (getattr(tb, o[1]), getattr(tb, o[2])))
         src = getattr(tb, a["source"][1]) if a["source"][0] == "inst" else a["source"][1]
         return hs.Noise(output=out, input_source=src, sweep=mk_sweep(a["sweep"]), name=a["name"])
     if k == "custom":
@@ -357,7 +368,7 @@ def exp_analysis(a, name_override=None):
         e.update(tstop=expect_float(a["tstop"]), tstep=0.0 if a["tstep"] is None else expect_float(a["tstep"]))
     elif k == "noise":
         o = a["output"]
-        e.update(output_p=o[1], output_n=o[2] if o[0] == "pair" else "", input_source=a["source"][1], fstart=expect_float(a["sweep"]["start"]),
+        e.update(output_p=(o[1] + "_p") if o[0] == "diff" else o[1], output_n=o[2] if o[0] in ("pair", "strpair", "mixedpair") else ((o[1] + "_n") if o[0] == "diff" else ""), input_source=a["source"][1], fstart=expect_float(a["sweep"]["start"]),
                  fstop=expect_float(a["sweep"]["stop"]), npts=a["sweep"]["npts"])
     elif k == "custom":
         e.update(cmd=a["cmd"])
